@@ -637,6 +637,15 @@ def handleImports (j : Json) : Option Json := do
     | some (m, none) => Json.arr #[Json.str n, Json.str m, Json.null]
     | none => Json.arr #[Json.str n, Json.null, Json.null])).toArray)])
 
+/-- `fix_starred_imports` on one star import -/
+def handleStarImport (j : Json) : Option Json := do
+  let referenced ← (field? j "referenced") >>= strList?
+  let undefinedNames ← (field? j "undefined") >>= strList?
+  let provided ← (field? j "provided") >>= strList?
+  some (Json.mkObj [("expand", match StarImport.expand ⟨referenced, undefinedNames, provided⟩ with
+    | none => Json.null
+    | some l => Json.arr (l.map Json.str).toArray)])
+
 /-- validator of an import rewrite: are the used names bound to the same objects before and after? -/
 def handleImportCheck (j : Json) : Option Json := do
   let before ← (field? j "before") >>= getArr? >>= parseImps
@@ -713,6 +722,7 @@ def dispatch (j : Json) : Json :=
   | some "minimize" => (handleMinimize j).getD bad
   | some "imports" => (handleImports j).getD bad
   | some "importcheck" => (handleImportCheck j).getD bad
+  | some "starimport" => (handleStarImport j).getD bad
   | some "sideeffect" => (handleSideEffect j).getD bad
   | _ => bad
 
